@@ -784,6 +784,42 @@ pub fn run_case(out: &mut Out, h: &Head, kind: &str, next: &mut dyn FnMut(&[usiz
             for (c, f, d) in orc.fails {
                 out.fail(&c, &f, d);
             }
+            // C20 (host half), direct: after the only cancel of a case the event loop reports
+            // `Cancelled` at the latest once more than one second of virtual time has passed since the
+            // cancel, whatever else arrives meanwhile and even if the final Offline never comes
+            let ncancel: usize = lines
+                .iter()
+                .map(|(l, _)| match &l.kind {
+                    LineKind::Burst(els) => els.iter().filter(|e| matches!(e, El::Cancel)).count(),
+                    _ => 0,
+                })
+                .sum();
+            if ncancel == 1 {
+                let mut since: Option<u64> = None; // ms advanced since the cancel
+                let mut cancelled = false;
+                for (l, toks) in lines.iter() {
+                    if let LineKind::Burst(els) = &l.kind {
+                        if els.iter().any(|e| matches!(e, El::Cancel)) {
+                            since = Some(0);
+                        }
+                    }
+                    if since.is_some() && toks.iter().any(|t| matches!(t, Tok::Ret(r) if r == "Cancelled")) {
+                        cancelled = true;
+                    }
+                    if let (LineKind::Adv(ms), Some(e)) = (&l.kind, since.as_mut()) {
+                        *e += *ms;
+                        if *e >= 1100 && !cancelled {
+                            out.fail(
+                                "C20:cancel-returns-within-timeout",
+                                &format!("{}:drain-exceeds-one-second", h.cfg.kind()),
+                                format!("{} ms after the cancel the event loop has not reported Cancelled", e),
+                            );
+                            break;
+                        }
+                    }
+                }
+                out.count("oracle:C20-cancel-deadline");
+            }
             if sessions >= 1 {
                 out.nontrivial();
             }
@@ -1031,6 +1067,24 @@ fn directed(out: &mut Out) {
             Line { kind: LineKind::Adv(400), now: 550, pol: Pol::ACCEPT },
             Line { kind: LineKind::Adv(1100), now: 560, pol: Pol::ACCEPT },
             Line { kind: LineKind::Adv(1100), now: 570, pol: Pol::ACCEPT },
+        ],
+    );
+    // cancel while online, the final Offline withheld, other traffic arriving every 400 ms: the shutdown
+    // wait is ONE second in total (not one second per event), so the third advance reports Cancelled
+    run_fixed(
+        out,
+        &h,
+        "directed",
+        &[
+            b(vec![El::On], 510, "aaa"),
+            b(vec![El::Cancel], 520, "aaa"),
+            Line { kind: LineKind::Adv(400), now: 530, pol: Pol::ACCEPT },
+            b(vec![El::Node], 540, "aaa"),
+            Line { kind: LineKind::Adv(400), now: 550, pol: Pol::ACCEPT },
+            b(vec![El::St(false, true)], 560, "aaa"),
+            Line { kind: LineKind::Adv(400), now: 570, pol: Pol::ACCEPT },
+            b(vec![El::Junk], 580, "aaa"),
+            Line { kind: LineKind::Adv(400), now: 590, pol: Pol::ACCEPT },
         ],
     );
 }
